@@ -9,6 +9,7 @@ recursion; every typing name emitted is registered for import.
 import ast
 import re
 
+from .. import totality
 from ..dataflow import defs
 from ..lattice import ir_family, reaching_classes
 from ..model import call_name, own_nodes, unparse
@@ -33,7 +34,8 @@ EXPLANATION = (
     'name appearing in a string the stub backend emits is registered with '
     '_register_typing_import in the same function or callback (datetime through '
     '_register_adhoc_import); the import placeholder is emitted once and filled once, after all '
-    'declarations. Decides structure, not the correctness of individual annotations.')
+    'declarations. Decides structure, not the correctness of individual annotations.'
+    ' R4 (generator totality, stonelint.totality): python_type_stubs completes -- IR attribute reads defined for every reaching class; raises/asserts unreachable dispatch defaults or configuration conditions.')
 ASSUMPTIONS = ['typing names are recognised among: List Dict Optional Text Type Callable TypeVar '
                'Union Any Tuple Set']
 TYPING = ('List', 'Dict', 'Optional', 'Text', 'Type', 'Callable', 'TypeVar', 'Any', 'Tuple', 'Set')
@@ -59,6 +61,13 @@ def profile(pm, f, emit_pred=None):
                 names.add((n[0], n[1], n[2], n[3]))
     return loops, filt, names
 
+
+TOTALITY_PRECONDITIONS = {
+    ('backends.python_helpers.class_name_for_annotation_type',
+     'assert isinstance(annotation_type, AnnotationType)'):
+        'callers pass elements of namespace.annotation_types or the annotation_type of an '
+        'annotation, which the IR constructs as AnnotationType instances only',
+}
 
 def run(pm, ctx):
     for r, t in (('C15-R1', 'stub and runtime emitters agree per declaration kind'),
@@ -333,3 +342,6 @@ def run(pm, ctx):
                             for l in own_nodes(fill.node)),
               'typing imports are emitted sorted', fill.loc,
               msg='typing imports are no longer emitted sorted', key='C15-R3|sorted')
+    totality.run_pack(pm, ctx, 'C15-R4', ('stone.backends.python_type_stubs', 'stone.backends.python_type_mapping',
+                       'stone.backends.python_helpers'),
+                      True, 'python_type_stubs', TOTALITY_PRECONDITIONS, (10, 3, 0))
